@@ -1,7 +1,9 @@
 /-
 Monero wallet lemmas (C16): scalar reduction, the wallet constructors as decision trees,
 sub-address message layout, address codec round trip.
-Hashes (`keccak256`) and curve arithmetic (`edMulBase`, `edAdd`, `edMul`) are never unfolded.
+Hashes (`keccak256`) and curve arithmetic (`edMulBase`, `edAdd`, `edMul`) are never unfolded, except
+for two representation facts (`edAdd` returns reduced coordinates, `edMul` reduces its operand) and
+the point-by-point check that the eight small-order points are refused by `edMulNoclamp`.
 -/
 import BipVerif.Model.Monero
 import BipVerif.Lemmas.IntBytes
@@ -243,7 +245,8 @@ theorem xmrSubaddrKeys_congr {w w' : XmrWallet} (h : addrView w = addrView w') (
   obtain ⟨s', v', ps', pv'⟩ := w'
   simp only [addrView, Prod.mk.injEq] at h
   obtain ⟨rfl, rfl, rfl⟩ := h
-  rfl
+  unfold xmrSubaddrKeys
+  dsimp only
 
 theorem xmrPrimaryAddress_congr {w w' : XmrWallet} (h : addrView w = addrView w') (nv : Bytes) :
     xmrPrimaryAddress w nv = xmrPrimaryAddress w' nv := by
@@ -291,6 +294,117 @@ theorem subaddrMsg_inj {a a' : Bytes} {major minor major' minor' : Nat} (hl : a.
   obtain ⟨hA, hB⟩ := List.append_inj h3 (by simp)
   exact ⟨ha, ofNatLE4_inj hM hM' hA, ofNatLE4_inj hm hm' hB⟩
 
+/-! ### `edMulNoclamp` (libsodium `crypto_scalarmult_ed25519_noclamp`) -/
+
+theorem edNorm_idem (P : EdPoint) : edNorm (edNorm P) = edNorm P := by
+  simp [edNorm]
+
+/-- the addition law returns reduced coordinates -/
+theorem edNorm_edAdd (P Q : EdPoint) : edNorm (edAdd P Q) = edAdd P Q := by
+  simp [edNorm, edAdd]
+
+/-- scalar multiplication reduces its operand first -/
+theorem edMul_edNorm (k : Nat) (P : EdPoint) : edMul k (edNorm P) = edMul k P := by
+  have h : edExtOfAffine (edNorm P) = edExtOfAffine P := by
+    simp [edExtOfAffine, edNorm]
+  unfold edMul
+  rw [h]
+
+/-- `edMulNoclamp` without the `let`s: the three refusals, in order -/
+theorem edMulNoclamp_eq (k : Nat) (P : EdPoint) :
+    edMulNoclamp k P =
+      if edNorm P = edIdentity then none
+      else if edMul edL P ≠ edIdentity then none
+      else if edMul (k % 2 ^ 255) P = edIdentity then none
+      else some (edMul (k % 2 ^ 255) P) := by
+  unfold edMulNoclamp
+  simp only [edMul_edNorm]
+
+/-- success: the operand is a non-identity point of the prime-order subgroup and the product is
+not the identity -/
+theorem edMulNoclamp_eq_some_iff (k : Nat) (P r : EdPoint) :
+    edMulNoclamp k P = some r ↔
+      edNorm P ≠ edIdentity ∧ edMul edL P = edIdentity ∧
+        edMul (k % 2 ^ 255) P ≠ edIdentity ∧ r = edMul (k % 2 ^ 255) P := by
+  rw [edMulNoclamp_eq]
+  by_cases h1 : edNorm P = edIdentity
+  · simp [h1]
+  by_cases h2 : edMul edL P = edIdentity
+  · by_cases h3 : edMul (k % 2 ^ 255) P = edIdentity
+    · rw [if_neg h1, if_neg (not_not.mpr h2), if_pos h3]
+      constructor
+      · intro h; cases h
+      · intro h; exact absurd h3 h.2.2.1
+    · rw [if_neg h1, if_neg (not_not.mpr h2), if_neg h3]
+      constructor
+      · intro h; exact ⟨h1, h2, h3, (Option.some.inj h).symm⟩
+      · intro h; rw [h.2.2.2]
+  · rw [if_neg h1, if_pos h2]
+    constructor
+    · intro h; cases h
+    · intro h; exact absurd h.2.1 h2
+
+/-- refusal: identity operand, operand outside the prime-order subgroup, or identity product -/
+theorem edMulNoclamp_eq_none_iff (k : Nat) (P : EdPoint) :
+    edMulNoclamp k P = none ↔
+      edNorm P = edIdentity ∨ edMul edL P ≠ edIdentity ∨ edMul (k % 2 ^ 255) P = edIdentity := by
+  rw [edMulNoclamp_eq]
+  by_cases h1 : edNorm P = edIdentity
+  · simp [h1]
+  by_cases h2 : edMul edL P = edIdentity
+  · by_cases h3 : edMul (k % 2 ^ 255) P = edIdentity
+    · rw [if_neg h1, if_neg (not_not.mpr h2), if_pos h3]
+      exact ⟨fun _ => Or.inr (Or.inr h3), fun _ => rfl⟩
+    · rw [if_neg h1, if_neg (not_not.mpr h2), if_neg h3]
+      constructor
+      · intro h; cases h
+      · intro h
+        rcases h with h | h | h
+        · exact absurd h h1
+        · exact absurd h2 h
+        · exact absurd h h3
+  · rw [if_neg h1, if_pos h2]
+    exact ⟨fun _ => Or.inr (Or.inl h2), fun _ => rfl⟩
+
+/-- an operand that is not a non-identity point of the prime-order subgroup is refused whatever
+the scalar -/
+theorem edMulNoclamp_off_subgroup (k : Nat) {P : EdPoint}
+    (h : edNorm P = edIdentity ∨ edMul edL P ≠ edIdentity) : edMulNoclamp k P = none := by
+  rw [edMulNoclamp_eq_none_iff]
+  rcases h with h | h
+  · exact Or.inl h
+  · exact Or.inr (Or.inl h)
+
+/-- the eight points of small order (the multiples of the order-8 point with encoding
+`c7176a70…ac037a`): identity, order 8, 4, 8, 2, 8, 4, 8 -/
+def edSmallOrder : List EdPoint := [
+  ⟨0, 1⟩,
+  ⟨14399317868200118260347934320527232580618823971194345261214217575416788799818,
+   55188659117513257062467267217118295137698188065244968500265048394206261417927⟩,
+  ⟨38214883241950591754978413199355411911188925816896391856984770930832735035197, 0⟩,
+  ⟨14399317868200118260347934320527232580618823971194345261214217575416788799818,
+   2707385501144840649318225287225658788936804267575313519463743609750303402022⟩,
+  ⟨0, 57896044618658097711785492504343953926634992332820282019728792003956564819948⟩,
+  ⟨43496726750457979451437558183816721346016168361625936758514574428539776020131,
+   2707385501144840649318225287225658788936804267575313519463743609750303402022⟩,
+  ⟨19681161376707505956807079304988542015446066515923890162744021073123829784752, 0⟩,
+  ⟨43496726750457979451437558183816721346016168361625936758514574428539776020131,
+   55188659117513257062467267217118295137698188065244968500265048394206261417927⟩]
+
+/-- they are on the curve and killed by 8 -/
+theorem edSmallOrder_spec :
+    ∀ T ∈ edSmallOrder, edOnCurve T = true ∧ edMul 8 T = edIdentity := by decide +kernel
+
+/-- `L` is odd, so `L·T ≠ (0,1)` for the seven non-identity small-order points: checked by
+evaluation -/
+theorem edSmallOrder_off_subgroup :
+    ∀ T ∈ edSmallOrder, edNorm T = edIdentity ∨ edMul edL T ≠ edIdentity := by decide +kernel
+
+/-- **no small-order point is accepted as an operand**, whatever the scalar -/
+theorem edMulNoclamp_small_order (k : Nat) {T : EdPoint} (h : T ∈ edSmallOrder) :
+    edMulNoclamp k T = none :=
+  edMulNoclamp_off_subgroup k (edSmallOrder_off_subgroup T h)
+
 /-! ### `xmrSubaddrKeys` -/
 
 theorem xmrSubaddrKeys_minor_range (w : XmrWallet) (minor major : Nat) (h : minor > 2 ^ 32 - 1) :
@@ -312,7 +426,8 @@ theorem xmrSubaddrKeys_zero (w : XmrWallet) : xmrSubaddrKeys w 0 0 = .ok (w.pubS
   dsimp only
   rw [if_neg (by omega), if_neg (by omega), if_pos (by simp)]; rfl
 
-/-- the non-trivial branch: what is computed for `(major, minor) ≠ (0, 0)` in range -/
+/-- the non-trivial branch: what is computed for `(major, minor) ≠ (0, 0)` in range.  The last step
+`C = a·D` is libsodium's `crypto_scalarmult_ed25519_noclamp` (`edMulNoclamp`). -/
 theorem xmrSubaddrKeys_eq (w : XmrWallet) (minor major : Nat) (hm : minor ≤ 2 ^ 32 - 1)
     (hM : major ≤ 2 ^ 32 - 1) (hne : ¬ (minor = 0 ∧ major = 0)) :
     xmrSubaddrKeys w minor major =
@@ -323,8 +438,9 @@ theorem xmrSubaddrKeys_eq (w : XmrWallet) (minor major : Nat) (hm : minor ≤ 2 
         if mInt = 0 then .error .value
         else
           let d := edAdd b (edMulBase mInt)
-          let c := edMul (Bytes.toNatLE w.privView % 2 ^ 255) d
-          if c = edIdentity then .error .value else .ok (edEncode d, edEncode c) := by
+          match edMulNoclamp (Bytes.toNatLE w.privView % 2 ^ 255) d with
+          | none => .error .value
+          | some c => .ok (edEncode d, edEncode c) := by
   unfold xmrSubaddrKeys subaddrMsg
   have h1 : ¬ minor > 2 ^ 32 - 1 := by omega
   have h2 : ¬ major > 2 ^ 32 - 1 := by omega
@@ -338,7 +454,8 @@ theorem xmrSubaddrKeys_eq (w : XmrWallet) (minor major : Nat) (hm : minor ≤ 2 
     dsimp only
     split
     · rfl
-    · split <;> rfl
+    · generalize edMulNoclamp _ _ = o
+      cases o <;> rfl
 
 theorem xmrSubaddrKeys_error {w : XmrWallet} {minor major : Nat} {e : Err}
     (h : xmrSubaddrKeys w minor major = .error e) : e = .value := by
